@@ -223,6 +223,7 @@ func (c *cfgNil) reflect(opts *options) (reflect.Value, error) {
 func (c *cfgNil) toConfig(*options) (*Config, error) {
 	n := New()
 	n.ctx = c.ctx
+	n.metadata = c.metadata
 	return n, nil
 }
 
